@@ -3,7 +3,7 @@
 
   seed_eval.py add <PROP> <mutant_dir> <name>     copy patch/demo/notes, confirm in a scratch worktree:
                                                   demo passes on HEAD, fails with the patch, pinned suite still passes
-  seed_eval.py detect <name> [PROP ...]           apply the patch to /repo, run the quick checks, undo, record result
+  seed_eval.py detect <name> [PROP ...]           apply the patch to a scratch worktree of /repo HEAD, run the quick checks on it (PI2_REPO), record result
 """
 import json
 import os
@@ -95,24 +95,28 @@ def add(prop, src, name):
 
 
 def detect(name, props):
+    """runs the quick checks against a scratch worktree of /repo HEAD with the patch applied (PI2_REPO points the
+    checks at it), so that /repo itself -- and anything else running against it -- is never touched"""
     d = os.path.join(SEEDED, name)
     meta = json.load(open(os.path.join(d, 'meta.json')))
     props = props or [meta['property']]
-    rc, out = sh(f'git -C {REPO} status --porcelain --untracked-files=no')
-    if out.strip():
-        print('refusing: /repo has uncommitted changes:\n' + out)
-        return 2
-    rc, out = sh(f'git -C {REPO} apply {os.path.join(d, "patch.diff")}')
-    if rc != 0:
-        print('patch does not apply to current /repo:', out[-300:])
-        meta.setdefault('detection', {})['error'] = 'patch does not apply to current HEAD'
-        json.dump(meta, open(os.path.join(d, 'meta.json'), 'w'), indent=1)
-        return 2
+    wt = f'/tmp/det_{name}'
+    sh(f'git -C {REPO} worktree remove --force {wt}')
+    sh(f'git -C {REPO} worktree add -q {wt} HEAD')
+    rc, out = sh(f'git apply {os.path.join(d, "patch.diff")}', cwd=wt)
     res = meta.setdefault('detection', {})
+    if rc != 0:
+        print('patch does not apply to current /repo HEAD:', out[-300:])
+        res['error'] = 'patch does not apply to current HEAD'
+        json.dump(meta, open(os.path.join(d, 'meta.json'), 'w'), indent=1)
+        sh(f'git -C {REPO} worktree remove --force {wt}')
+        return 2
+    res.pop('error', None)
+    res['against_commit'] = sh(f'git -C {REPO} rev-parse --short HEAD')[1].strip()
     try:
         for p in props:
             t0 = time.time()
-            rc, out = sh(f'./check {p} --tier quick', cwd=VERIF, timeout=3600)
+            rc, out = sh(f'./check {p} --tier quick', cwd=VERIF, timeout=3600, env={'PI2_REPO': wt})
             viol = [l for l in out.splitlines() if l.startswith('VIOLATION')]
             first = ''
             lines = out.splitlines()
@@ -124,8 +128,9 @@ def detect(name, props):
                       'detected': rc == 1 and bool(viol)}
             print(name, p, 'DETECTED' if res[p]['detected'] else 'missed', f'({res[p]["wall_s"]}s)', first[:160])
     finally:
-        sh(f'git -C {REPO} checkout -- .')
-        # evidence and replay files written while the patch was applied describe the mutant, not the tree
+        sh(f'git -C {REPO} worktree remove --force {wt}')
+        shutil.rmtree(wt, ignore_errors=True)
+        # evidence and replay files written by these runs describe the mutant, not the tree
         sh('git checkout -- evidence 2>/dev/null; rm -f replays/*', cwd=VERIF)
     json.dump(meta, open(os.path.join(d, 'meta.json'), 'w'), indent=1)
     return 0
